@@ -300,3 +300,74 @@ def field_loads(chk, tier):
                 {"kind": "load_field", "trace": t["id"], "clause": f["clause"], "event": ev})
     chk.sample({"field_load_trace": traces[0]["id"], "events": len(traces[0]["events"]),
                 "first": traces[0]["events"][:4]})
+
+
+# ---------------------------------------------------------------------------
+# C01 composition: everything Load.tla accepts must classify without an error
+# ---------------------------------------------------------------------------
+def _classify_worker(batch):
+    import spowtd.classify as classify_mod
+    out = []
+    for idx, obj in batch:
+        e0 = E0S[idx % len(E0S)]
+        rain, et, lev = rows_of(obj["in"], e0, idx)
+        for s_thr, j_thr in ((0.75, 2.0), (2.0, 0.5)):
+            conn = sqlite3.connect(":memory:")
+            try:
+                P.load_api(conn, rain, et, lev, "UTC")
+                try:
+                    classify_mod.classify_intervals(conn, s_thr, j_thr)
+                    err = None
+                    # keys of the pairing table are unique by construction of the schema; re-check the join
+                    n = conn.execute("SELECT count(*) FROM zeta_interval_storm").fetchone()[0]
+                    m = conn.execute("SELECT count(DISTINCT storm_start_epoch) FROM zeta_interval_storm").fetchone()[0]
+                    if n != m:
+                        err = "a storm is paired twice"
+                except Exception as e:  # noqa
+                    err = "%s: %s" % (type(e).__name__, str(e)[:200])
+            except Exception as e:  # noqa
+                err = None      # load itself refused: C10 / C11 territory
+            finally:
+                conn.close()
+            out.append((idx, s_thr, j_thr, err))
+    return out
+
+
+def classify_all_loadable(chk, tier, procs=12):
+    consts = dict(QUICK_CONSTS if tier == "quick" else THOROUGH_CONSTS)
+    cfg = tlc.cfg_text(consts, spec="Spec", invariants=["EmitInv"])
+    res = tlc.run("MCLoad", cfg, workers=12, timeout=3000)
+    chk.add_tlc(res, "MCLoad (configurations that load, then classify)")
+    # judged: datasets on which Load.tla stores at least one water level (with none there is nothing to
+    # classify and the code's deliberate "No valid data intervals found" is not held against C01)
+    items = [(i, o) for i, o in enumerate(res["emits"]) if o["out"]["refused"] == "none" and o["out"]["level"]]
+    chk.count("loadable_but_no_level_on_any_grid_instant_not_judged",
+              sum(1 for o in res["emits"] if o["out"]["refused"] == "none" and not o["out"]["level"]))
+    jobs = [items[i:i + 300] for i in range(0, len(items), 300)]
+    lookup = dict(items)
+    with mp.Pool(procs) as pool:
+        for out in pool.imap_unordered(_classify_worker, jobs):
+            for idx, s_thr, j_thr, err in out:
+                chk.count("evaluations")
+                chk.count("traces_validated_against_impl")
+                if err:
+                    obj = lookup[idx]
+                    chk.violation("a dataset that loads fails to classify (-s %g -j %g): %s; input (ticks of 10 min) %s" % (
+                        s_thr, j_thr, err, json.dumps(obj["cfg"])),
+                        {"kind": "load_then_classify", "in": obj["in"], "cfg": obj["cfg"], "idx": idx, "s": s_thr, "j": j_thr,
+                         "detail": err})
+
+
+QUICK_CONSTS = {"Ps": "{2, 3}", "Qs": "{1, 2, 3}", "MaxRa": "2", "NRs": "{3, 5}", "MaxZa": "2", "NZs": "{4, 6}", "Emit": "TRUE"}
+THOROUGH_CONSTS = {"Ps": "{2, 3, 6}", "Qs": "{1, 2, 3, 6}", "MaxRa": "3", "NRs": "{3, 5, 7}", "MaxZa": "4",
+                   "NZs": "{3, 5, 7, 9}", "Emit": "TRUE"}
+
+
+def replay_load_then_classify(chk, rp):
+    out = _classify_worker([(rp["idx"], {"in": rp["in"]})])
+    chk.count("evaluations"); chk.count("distinct_nontrivial", 2); chk.count("traces_validated_against_impl")
+    chk.sample(rp["cfg"])
+    for idx, s_thr, j_thr, err in out:
+        if err and s_thr == rp["s"]:
+            print("replay:", err)
+            chk.violation("replayed: " + err, rp)
